@@ -234,11 +234,15 @@ pub fn server_of(ip: IpAddr) -> usize {
 /// Fast latency of server `srv` (distinct per server and protocol so that parallel attempts do
 /// not complete in the same virtual instant).
 pub fn fast(srv: usize, tcp: bool) -> u64 {
-    10 + 4 * srv as u64 + if tcp { 2 } else { 0 }
+    20 + 8 * srv as u64 + if tcp { 4 } else { 0 }
 }
 
 #[derive(Clone, Debug, PartialEq, Eq)]
 pub struct Ev {
+    /// serial number of the event (never reused, survives `rebase`)
+    pub serial: u64,
+    /// id of the request message = the harness caller that owns the lookup (0 for connects)
+    pub owner: u16,
     /// true = connection attempt (TCP only), false = exchange
     pub connect: bool,
     pub srv: usize,
@@ -252,7 +256,7 @@ pub struct Ev {
 
 impl Ev {
     pub fn to_json(&self) -> Value {
-        json!({"connect": self.connect, "srv": self.srv, "tcp": self.tcp, "tag": self.tag, "k": self.k, "start": self.start, "end": self.end, "step": self.step})
+        json!({"owner": self.owner, "connect": self.connect, "srv": self.srv, "tcp": self.tcp, "tag": self.tag, "k": self.k, "start": self.start, "end": self.end, "step": self.step})
     }
 }
 
@@ -261,6 +265,7 @@ pub struct NetState {
     counters: BTreeMap<(usize, bool, u8), usize>,
     conn_counters: BTreeMap<usize, usize>,
     pub log: Vec<Ev>,
+    serial: u64,
     pub chooser: Option<Chooser>,
     pub udp_alphabet: Vec<Step>,
     pub tcp_alphabet: Vec<Step>,
@@ -290,6 +295,7 @@ impl Net {
                     counters: BTreeMap::new(),
                     conn_counters: BTreeMap::new(),
                     log: vec![],
+                    serial: 0,
                     chooser,
                     udp_alphabet: vec![],
                     tcp_alphabet: vec![],
@@ -313,7 +319,7 @@ impl Net {
         st.log.clear();
     }
 
-    fn next_step(&self, srv: usize, tcp: bool, tag: u8) -> (Step, usize) {
+    fn next_step(&self, srv: usize, tcp: bool, tag: u8, owner: u16) -> (Step, u64) {
         let now = self.ms();
         let mut st = self.inner.state.lock().unwrap();
         let k = {
@@ -347,12 +353,13 @@ impl Net {
             }
             script.at(k)
         };
-        let idx = st.log.len();
-        st.log.push(Ev { connect: false, srv, tcp, tag, k, start: now, end: None, step: step.to_s() });
-        (step, idx)
+        st.serial += 1;
+        let serial = st.serial;
+        st.log.push(Ev { serial, owner, connect: false, srv, tcp, tag, k, start: now, end: None, step: step.to_s() });
+        (step, serial)
     }
 
-    fn next_conn_step(&self, srv: usize) -> (ConnStep, usize) {
+    fn next_conn_step(&self, srv: usize) -> (ConnStep, u64) {
         let now = self.ms();
         let mut st = self.inner.state.lock().unwrap();
         let k = {
@@ -375,19 +382,18 @@ impl Net {
             }
         }
         let step = script.at(k);
-        let idx = st.log.len();
-        st.log.push(Ev { connect: true, srv, tcp: true, tag: 255, k, start: now, end: None, step: step.to_s() });
-        (step, idx)
+        st.serial += 1;
+        let serial = st.serial;
+        st.log.push(Ev { serial, owner: 0, connect: true, srv, tcp: true, tag: 255, k, start: now, end: None, step: step.to_s() });
+        (step, serial)
     }
 
-    fn end(&self, idx: usize, start: u64) {
+    fn end(&self, serial: u64) {
         let now = self.ms();
         let mut st = self.inner.state.lock().unwrap();
-        // the log may have been rebased (warm-up leftovers): only close the entry we opened
-        if let Some(e) = st.log.get_mut(idx) {
-            if e.start == start && e.end.is_none() {
-                e.end = Some(now);
-            }
+        // the log may have been rebased (warm-up leftovers are gone): close only our own entry
+        if let Some(e) = st.log.iter_mut().rev().find(|e| e.serial == serial) {
+            e.end = Some(now);
         }
     }
 
@@ -437,8 +443,7 @@ impl DnsHandle for Conn {
         let q = request.queries[0].clone();
         let id = request.id;
         let tag = tag_of(&q.name);
-        let (step, idx) = self.net.next_step(self.srv, self.tcp, tag);
-        let start = self.net.ms();
+        let (step, serial) = self.net.next_step(self.srv, self.tcp, tag, id);
         let net = self.net.clone();
         let (srv, tcp) = (self.srv, self.tcp);
         let timeout_ms = self.net.inner.timeout_ms;
@@ -511,7 +516,7 @@ impl DnsHandle for Conn {
                     Err(NetError::QueryCaseMismatch)
                 }
             };
-            net.end(idx, start);
+            net.end(serial);
             r
         }))
     }
@@ -529,8 +534,7 @@ impl ConnectionProvider for Net {
         if !tcp {
             return Ok(Box::pin(async move { Ok(Conn { net, srv, tcp }) }));
         }
-        let (step, idx) = self.next_conn_step(srv);
-        let start = self.ms();
+        let (step, serial) = self.next_conn_step(srv);
         Ok(Box::pin(async move {
             let r = match step {
                 ConnStep::Ok => Ok(Conn { net: net.clone(), srv, tcp }),
@@ -543,7 +547,7 @@ impl ConnectionProvider for Net {
                     Err(NetError::Timeout)
                 }
             };
-            net.end(idx, start);
+            net.end(serial);
             r
         }))
     }
